@@ -187,8 +187,30 @@ def h_literal_types(eng):
 
     import pint
 
-    for ntype in (float, decimal.Decimal, Fraction):
+    from pint.util import ParserHelper
+
+    # the same strings in registries of different numeric types, in both orders: whatever is
+    # memoised for one registry (ParserHelper.from_string) must not leak into another
+    for ntype in (float, decimal.Decimal, Fraction, decimal.Decimal, float):
         ureg = regs.default(type("E", (), {"ntype": ntype})) if ntype is Fraction else pint.UnitRegistry(non_int_type=ntype)
+        u = ureg.parse_units("meter ** 0.5 / second ** 1.5")
+        eng.prove(all(type(e) is ntype for e in u._units.values()), f"fractional-exponent-type:{ntype.__name__}")
+        eng.prove(u._units["meter"] == ntype("0.5") and u._units["second"] == ntype("-1.5"), f"fractional-exponent-value:{ntype.__name__}")
+        ph = ParserHelper.from_string("2.5 meter ** 0.5", ntype)
+        if ntype is Fraction and type(ph.scale) is float:
+            # known finding K12: 1 ** Fraction(1, 2) is the float 1.0 in Python, and a unit enters
+            # an expression as the number 1 times the unit
+            eng.fail("fraction-registry:fractional-power-turns-literals-into-floats", stop=False)
+        else:
+            eng.prove(type(ph.scale) is ntype, f"parserhelper-scale-type:{ntype.__name__}")
+        eng.prove(type(ph["meter"]) is ntype, f"parserhelper-exponent-type:{ntype.__name__}")
+        q = ureg.parse_expression("0.1 meter ** 0.5")
+        if ntype is Fraction and type(q.magnitude) is float:
+            eng.fail("fraction-registry:fractional-power-turns-literals-into-floats", stop=False)
+        else:
+            eng.prove(type(q.magnitude) is ntype and q.magnitude == ntype("0.1"), f"literal-next-to-fractional-power:{ntype.__name__}")
+        u = ureg.parse_units("meter ** 2")
+        eng.prove(type(u._units["meter"]) in (int, ntype) and u._units["meter"] == 2, f"integer-exponent:{ntype.__name__}")
         q = ureg.parse_expression("3 meter")
         eng.prove(type(q.magnitude) is (int if ntype is float else ntype), f"integer-literal:{ntype.__name__}")
         q = ureg.parse_expression("2.5 meter")
